@@ -32,7 +32,13 @@ type routeCase struct {
 }
 
 func init() {
-	register(&Check{ID: "C01", Run: func(r *core.Run) { runRouteLoop(r, "C01") }, Replay: func(w *core.W, kind string, raw json.RawMessage) { replayRoute(w, "C01", raw) }})
+	register(&Check{ID: "C01", Run: func(r *core.Run) { runRouteLoop(r, "C01") }, Replay: func(w *core.W, kind string, raw json.RawMessage) {
+		if kind == "wide" {
+			replayWide(w, raw)
+			return
+		}
+		replayRoute(w, "C01", raw)
+	}})
 	register(&Check{ID: "C02", Run: func(r *core.Run) { runRouteLoop(r, "C02") }, Replay: func(w *core.W, kind string, raw json.RawMessage) { replayRoute(w, "C02", raw) }})
 }
 
@@ -137,7 +143,7 @@ func genRouteCase(rng *rand.Rand, flameLevel bool, nPaths int) *routeCase {
 
 func runRouteLoop(r *core.Run, prop string) {
 	if prop == "C01" {
-		r.Rule("route sets (1-10 routes over a per-set pool of 4-6 segment shapes: static incl. regex-active literals, placeholder, multi-bind regex with catalogue expressions, match-all with/without capture, {**}, optional/empty final segment, root) registered in random order; 40/60 route-directed paths per set (instances of long/short forms, 1-2 hostile mutations, literal probes, random). Oracle: declarative derivation model, winner = lexicographic minimum of (final-matchall-deferred, rank, registration order, span); second, model-free oracle: a path is dispatched iff some accepted route admits it when registered alone in a tree of its own, and the winner does so with the same binds. non-trivial = distinct (set,path) with >=2 derivations from >=2 routes, or a dead-end higher-priority branch (backtrack needed), or a match-all with >1 feasible span")
+		r.Rule("route sets (1-10 routes over a per-set pool of 4-6 segment shapes: static incl. regex-active literals, placeholder, multi-bind regex with catalogue expressions, match-all with/without capture, {**}, optional/empty final segment, root) registered in random order; 40/60 route-directed paths per set (instances of long/short forms, 1-2 hostile mutations, literal probes, random). Oracle: declarative derivation model, winner = lexicographic minimum of (final-matchall-deferred, rank, registration order, span); second, model-free oracle: a path is dispatched iff some accepted route admits it when registered alone in a tree of its own, and the winner does so with the same binds. Wide fan-out workload: 2/6 sets of 24k/100k routes that differ in one static segment at one tree position (subtree list, leaf list, mixed with a deeper level); every route must be found by, and only by, its own instance (an almost-injective identity of tree positions, e.g. a 32-bit digest, collides within such a set with probability ~0.07/0.69 per set; the tree's linear sibling scan makes larger sets quadratic). non-trivial = distinct (set,path) with >=2 derivations from >=2 routes, or a dead-end higher-priority branch (backtrack needed), or a match-all with >1 feasible span")
 	} else {
 		r.Rule("same workload as C01 biased to dispatched requests; judged: every bind of the matched route equals the model's captured substring decoded once, `route` is the canonical text, model-free predicates on %-free paths (regex value fully matches its own expression, placeholder holds one segment, match-all spans 1..capture segments), round trip Leaf.URLPath(params, optional iff used) reproduces the path with captured substrings decoded. non-trivial = distinct (route,path) with >=2 binds in one segment, or a user expression with its own groups, or an escape in a captured value, or a match-all span >=2")
 	}
@@ -155,6 +161,7 @@ func runRouteLoop(r *core.Run, prop string) {
 		judgeRouteCase(w, c, prop, nil)
 	})
 	if prop == "C01" {
+		runWide(r)
 		r.Gate("distinct_nontrivial", r.NonTrivialCount(), 500)
 		for _, k := range []string{"decided:rank", "decided:registration-order", "decided:fewest-captured", "decided:final-matchall-deferred", "backtrack-needed", "not-found-agree", "flame-level-dispatches", "unknown-method-requests", "kept-tree-after-refusal", "requests-with-raw-path", "isolated-route-oracle"} {
 			r.GateCounter(k, 1)
